@@ -17,6 +17,9 @@ pub enum Op {
     CloneSearch { e: usize, d: usize },
     /// search, then render the result (which may alias the shared document) as JSON
     ToString { e: usize, d: usize },
+    /// harness-level sequencing WITHOUT synchronisation: spin (Relaxed loads only, so no
+    /// happens-before edge is created) until thread `t` has completed `n` operations
+    WaitFor { t: usize, n: usize },
 }
 
 #[derive(Clone, Debug)]
@@ -36,6 +39,7 @@ fn op_json(o: &Op) -> Value {
         Op::CustomSearch { text, d } => json!({"k":"custom_search","text":text,"d":d}),
         Op::CloneSearch { e, d } => json!({"k":"clone_search","e":e,"d":d}),
         Op::ToString { e, d } => json!({"k":"to_string","e":e,"d":d}),
+        Op::WaitFor { t, n } => json!({"k":"wait_for","t":t,"n":n}),
     }
 }
 
@@ -71,6 +75,7 @@ pub fn from_json(v: &Value) -> Scenario {
                                         "compile_search" => Op::CompileSearch { text: st(o, "text"), d: us(o, "d") },
                                         "custom_search" => Op::CustomSearch { text: st(o, "text"), d: us(o, "d") },
                                         "clone_search" => Op::CloneSearch { e: us(o, "e"), d: us(o, "d") },
+                                        "wait_for" => Op::WaitFor { t: us(o, "t"), n: us(o, "n") },
                                         _ => Op::ToString { e: us(o, "e"), d: us(o, "d") },
                                     })
                                     .collect()
@@ -126,7 +131,14 @@ fn gen_text(r: &mut Rng, base: &J, custom: bool) -> String {
 
 /// `race`: build the scenario around the first use of the default runtime — it is
 /// untouched before the spawn and every thread starts by compiling through it.
-pub fn generate(seed: u64, race: bool) -> Scenario {
+pub fn generate(seed: u64, class: &str) -> Scenario {
+    let race = class == "race";
+    // "late": one thread initialises the default runtime at once, the others first do
+    // unrelated work and touch it only afterwards (no happens-before between siblings).
+    let late = class == "late";
+    // "pool": steady state; all threads keep compiling the same few texts through the
+    // default runtime at the same time (anything keyed by expression text is contended).
+    let pool = class == "pool";
     let mut r = Rng::new(seed);
     let mut base = small_doc(&mut r);
     if r.chance(1, 2) {
@@ -143,7 +155,7 @@ pub fn generate(seed: u64, race: bool) -> Scenario {
         docs.push(base.mutated(&mut r).to_json());
     }
     let npre = 1 + r.below(2);
-    let touch_default_first = if race { false } else { r.chance(1, 2) };
+    let touch_default_first = if race || late { false } else if pool { true } else { r.chance(1, 2) };
     let mut pre = vec![];
     for _ in 0..npre {
         // without a prior touch, pre-compiled expressions must come from the custom runtime,
@@ -151,14 +163,32 @@ pub fn generate(seed: u64, race: bool) -> Scenario {
         let custom = if touch_default_first { r.chance(1, 3) } else { true };
         pre.push((custom, gen_text(&mut r, &base, custom)));
     }
-    let nthreads = 2 + r.below(3);
+    let nthreads = if pool { 3 + r.below(2) } else { 2 + r.below(3) };
+    let pool_texts: Vec<String> = (0..3).map(|_| gen_text(&mut r, &base, false)).collect();
     let mut threads = vec![];
-    for _ in 0..nthreads {
+    for t in 0..nthreads {
         let nops = 2 + r.below(4);
         let mut ops = vec![];
-        if race {
+        if race || (late && t == 0) {
             let d = r.below(docs.len());
             ops.push(Op::CompileSearch { text: gen_text(&mut r, &base, false), d });
+        }
+        if late && t > 0 {
+            for _ in 0..r.below(2) {
+                let d = r.below(docs.len());
+                ops.push(Op::CustomSearch { text: gen_text(&mut r, &base, true), d });
+            }
+            // only start using the default runtime once thread 0 has finished its first
+            // operation (which initialised it)
+            ops.push(Op::WaitFor { t: 0, n: 1 });
+            let d = r.below(docs.len());
+            ops.push(Op::CompileSearch { text: gen_text(&mut r, &base, false), d });
+        }
+        if pool {
+            for _ in 0..(10 + r.below(6)) {
+                let d = r.below(docs.len());
+                ops.push(Op::CompileSearch { text: r.pick(&pool_texts).clone(), d });
+            }
         }
         for _ in ops.len()..nops {
             let d = r.below(docs.len());
@@ -207,6 +237,8 @@ struct Shared {
     docs: Vec<Rcvar>,
     exprs: Vec<Option<Expression<'static>>>,
     custom: &'static Runtime,
+    /// per-thread count of completed operations (threads mode only)
+    progress: Option<Vec<AtomicUsize>>,
 }
 
 fn render(r: Result<Rcvar, JmespathError>) -> String {
@@ -218,6 +250,20 @@ fn render(r: Result<Rcvar, JmespathError>) -> String {
 
 fn run_op(sh: &Shared, op: &Op) -> String {
     match op {
+        Op::WaitFor { t, n } => {
+            if let Some(p) = sh.progress.as_ref() {
+                // a wait on an impossible target would never end: ignore it
+                let mut spins = 0u64;
+                while p.get(*t).map_or(usize::MAX, |c| c.load(Relaxed)) < *n {
+                    std::thread::yield_now();
+                    spins += 1;
+                    if spins > 50_000_000 {
+                        break;
+                    }
+                }
+            }
+            "waited".into()
+        }
         Op::Search { e, d, form } => match &sh.exprs[*e % sh.exprs.len()] {
             None => "skip".into(),
             Some(ex) => {
@@ -277,7 +323,7 @@ fn build_shared(s: &Scenario) -> Shared {
             }
         })
         .collect();
-    Shared { docs, exprs, custom }
+    Shared { docs, exprs, custom, progress: None }
 }
 
 fn arg<'a>(args: &'a [String], name: &str) -> Option<&'a str> {
@@ -291,7 +337,7 @@ pub fn main() {
     let index: u64 = arg(&args, "--index").and_then(|s| s.parse().ok()).unwrap_or(0);
     let scen = match arg(&args, "--scenario") {
         Some(t) => from_json(&serde_json::from_str(t).expect("scenario JSON")),
-        None => generate(mix(seed, index), args.iter().any(|a| a == "--race")),
+        None => generate(mix(seed, index), arg(&args, "--class").unwrap_or(if args.iter().any(|a| a == "--race") { "race" } else { "general" })),
     };
     if args.iter().any(|a| a == "--print") {
         println!("{}", serde_json::to_string(&to_json(&scen)).unwrap());
@@ -301,7 +347,7 @@ pub fn main() {
     if let Some(n) = arg(&args, "--batch").and_then(|x| x.parse::<u64>().ok()) {
         // native pre-pass over many scenarios: seq vs serial-threads, one line each
         for i in index..index + n {
-            let sc = generate(mix(seed, i), i % 2 == 0);
+            let sc = generate(mix(seed, i), ["race", "general", "pool", "late"][(i % 4) as usize]);
             let a = exec(&sc, "seq", false).0;
             let b = exec(&sc, "serial", false).0;
             println!("B {} {:016x} {:016x}", i, a, b);
@@ -314,8 +360,11 @@ pub fn main() {
 }
 
 fn exec(scen: &Scenario, mode: &str, verbose: bool) -> (u64, u64, usize) {
-    let sh = build_shared(scen);
+    let mut sh = build_shared(scen);
     let nthreads = scen.threads.len();
+    if mode != "seq" && mode != "serial" {
+        sh.progress = Some((0..nthreads).map(|_| AtomicUsize::new(0)).collect());
+    }
     let mut results: Vec<Vec<String>> = vec![vec![]; nthreads];
     let mut order_hash = 0u64;
     let mut contended = 0usize;
@@ -348,14 +397,25 @@ fn exec(scen: &Scenario, mode: &str, verbose: bool) -> (u64, u64, usize) {
             let hs: Vec<_> = scen
                 .threads
                 .iter()
-                .map(|ops| {
+                .enumerate()
+                .map(|(tid, ops)| {
                     sc.spawn(move || {
                         let mut out = vec![];
                         let mut stamps = vec![];
                         let before = started_ref.fetch_add(1, Relaxed);
                         for op in ops {
+                            // a wait may only look at a lower-numbered thread (no cycles)
+                            if let Op::WaitFor { t, .. } = op {
+                                if *t >= tid {
+                                    out.push("waited".into());
+                                    continue;
+                                }
+                            }
                             out.push(run_op(sh_ref, op));
                             stamps.push(stamp_ref.fetch_add(1, Relaxed));
+                            if let Some(p) = sh_ref.progress.as_ref() {
+                                p[tid].fetch_add(1, Relaxed);
+                            }
                         }
                         (out, stamps, before)
                     })
